@@ -13,6 +13,7 @@ import (
 	"runtime"
 	"sort"
 	"strings"
+	"verifharness/ut"
 
 	"github.com/cockroachdb/errors"
 	"github.com/cockroachdb/errors/domains"
@@ -311,7 +312,11 @@ func cmdDepth(args []string) {
 				}
 			}
 		}
-		for wi, w := range []error{c16WrapLocally(e), c16StackLocally(e)} {
+		// also through wrappers that expose their cause by Cause() only, by Unwrap() only, or
+		// that are not comparable
+		for wi, w := range []error{c16WrapLocally(e), c16StackLocally(e),
+			c16WrapLocally(&ut.WCause{Msg: "legacy", Err: e}), c16StackLocally(&ut.WUnwrap{Msg: "std", Err: c16WrapLocally(e)}),
+			c16WrapLocally(ut.WNoCmp{Msg: "v", Err: &ut.WCause{Msg: "legacy", Err: e}, Junk: []int{1}})} {
 			evals++
 			if got := src(w); got != want {
 				fail(fmt.Sprintf("%s-localwrap%d", id, wi), fmt.Sprintf("GetOneLineSource of a wrapper is %q, the innermost frame is %q", got, want), "")
